@@ -555,7 +555,7 @@ class EndpointLookupInterface(ThingWithCommonRD, ObservableResource):
                 if search_value is not None and search_value.endswith("*"):
 
                     def matches(x, start=search_value[:-1]):
-                        return x.startswith(start)
+                        return x is not None and x.startswith(start)
                 else:
 
                     def matches(x, search_value=search_value):
@@ -564,7 +564,9 @@ class EndpointLookupInterface(ThingWithCommonRD, ObservableResource):
                 if search_key in ("if", "rt"):
 
                     def matches(x, original_matches=matches):
-                        return any(original_matches(v) for v in x.split())
+                        return x is not None and any(
+                            original_matches(v) for v in x.split()
+                        )
 
                 if search_key == "href":
                     candidates = [
@@ -615,7 +617,7 @@ class ResourceLookupInterface(ThingWithCommonRD, ObservableResource):
                 if search_value is not None and search_value.endswith("*"):
 
                     def matches(x, start=search_value[:-1]):
-                        return x.startswith(start)
+                        return x is not None and x.startswith(start)
                 else:
 
                     def matches(x, search_value=search_value):
@@ -624,7 +626,9 @@ class ResourceLookupInterface(ThingWithCommonRD, ObservableResource):
                 if search_key in ("if", "rt"):
 
                     def matches(x, original_matches=matches):
-                        return any(original_matches(v) for v in x.split())
+                        return x is not None and any(
+                            original_matches(v) for v in x.split()
+                        )
 
                 if search_key == "href":
                     candidates = [
